@@ -55,6 +55,14 @@ pub uninterp spec fn ctx_keys(c: CommitmentTransaction) -> TxCreationKeys;
 pub uninterp spec fn ctx_commitment_number(c: CommitmentTransaction) -> u64;   // backwards counting, as LDK
 
 pub struct BuiltCommitmentTransaction { pub transaction: Transaction, pub txid: Txid }
+// BuiltCommitmentTransaction::sign_counterparty_commitment: ECDSA over the SIGHASH_ALL sighash of the funding input
+pub uninterp spec fn ecdsa_sign(msg: Message, sk: SecretKey) -> Signature;
+impl BuiltCommitmentTransaction {
+    #[verifier::external_body]
+    pub fn sign_counterparty_commitment(&self, funding_key: &SecretKey, redeemscript: &ScriptBuf, value_sat: u64, secp: &VxSecp) -> (r: Signature)
+        ensures r == ecdsa_sign(message_of_digest(sighash_p2wsh(self.transaction, 0, *redeemscript, value_sat, EcdsaSighashType::All)), *funding_key)
+    { unimplemented!() }
+}
 #[verifier::external_body]
 pub struct TrustedCommitmentTransaction { _p: u8 }
 impl CommitmentTransaction {
